@@ -69,7 +69,9 @@ Definition lang_table : list (str * str) :=
    ([110;111], [110;111;114;119;101;103;105;97;110])]. (* no norwegian *)
 
 (* ================= time expressions ================= *)
-Record tdur := mkDur { td_d : Z; td_frames : Z; td_ticks : Z }.
+(* d, frames, ticks, and the value of an offset expressed in frames / in ticks, fraction included (zero otherwise) *)
+Record tdur := mkDurV { td_d : Z; td_frames : Z; td_ticks : Z; td_fval : f64; td_tval : f64 }.
+Definition mkDur (d f t : Z) : tdur := mkDurV d f t fzero fzero.
 Inductive metric := Mh | Mm | Ms | Mms | Mf | Mt.
 
 Fixpoint span_digits (s : str) : str * str :=
@@ -114,8 +116,8 @@ Definition ttml_unmarshal (s : str) : option tdur :=
   | Some (ip, fp, m) =>
     let v := parse_dec ip fp in
     match m with
-    | Mt => Some (mkDur 0 0 (to_Z v))
-    | Mf => Some (mkDur 0 (to_Z v) 0)
+    | Mt => Some (mkDurV 0 0 (to_Z v) fzero v)
+    | Mf => Some (mkDurV 0 (to_Z v) 0 v fzero)
     | _ => Some (mkDur (round_Z (fmul v (of_Z (timebase m)))) 0 0)
     end
   | None =>
@@ -133,10 +135,12 @@ Definition ttml_unmarshal (s : str) : option tdur :=
   end.
 (* TTMLInDuration.duration *)
 Definition ttml_duration (d : tdur) (framerate tickrate : Z) : Z :=
-  if ((0 <? td_ticks d) && (0 <? tickrate))%Z
-  then round_Z (fdiv (fmul (of_Z (td_ticks d)) (of_Z second_ns)) (of_Z tickrate))
-  else (td_d d + if (0 <? td_frames d) && (0 <? framerate)
-                 then round_Z (fmul (fdiv (of_Z (td_frames d)) (of_Z framerate)) (of_Z second_ns))
+  if (((0 <? td_ticks d)%Z || fpos (td_tval d)) && (0 <? tickrate)%Z)
+  then let ticks := if fpos (td_tval d) then td_tval d else of_Z (td_ticks d) in
+       round_Z (fdiv (fmul ticks (of_Z second_ns)) (of_Z tickrate))
+  else (td_d d + if ((0 <? td_frames d) || fpos (td_fval d)) && (0 <? framerate)
+                 then let frames := if fpos (td_fval d) then td_fval d else of_Z (td_frames d) in
+                      round_Z (fmul (fdiv frames (of_Z framerate)) (of_Z second_ns))
                  else 0)%Z.
 Definition ttml_time (s : str) (framerate tickrate : Z) : option Z :=
   match ttml_unmarshal s with Some d => Some (ttml_duration d framerate tickrate) | None => None end.
